@@ -354,7 +354,9 @@ func diff(a, b string, metadata []jd.Metadata) (string, bool, error) {
 		if err != nil {
 			return "", false, err
 		}
-		if str != "{}" {
+		// A non-empty merge diff can render as {} (a non-object replaced
+		// by an empty object), so look at the diff, not at its rendering.
+		if len(diff) > 0 {
 			haveDiff = true
 		}
 	default:
@@ -410,7 +412,9 @@ func diffV2(a, b string, options []v2.Option) (string, bool, error) {
 		if err != nil {
 			return "", false, err
 		}
-		if str != "{}" {
+		// A non-empty merge diff can render as {} (a non-object replaced
+		// by an empty object), so look at the diff, not at its rendering.
+		if len(diff) > 0 {
 			haveDiff = true
 		}
 	default:
